@@ -1,7 +1,7 @@
 (* C16  Transport routes each graphsync event to its channel; none after cleanup.  Statements only
    (model Transport.v of transport/graphsync/graphsync.go; graphsync itself is not modelled). *)
 From Coq Require Import List NArith ZArith String Bool.
-From DT Require Import GenStatus GenEvent GenMsgType FsmTypes GenFsm Fsm View Msg Transport C16Proofs.
+From DT Require Import GenStatus GenEvent GenMsgType FsmTypes GenFsm Fsm View Msg Transport C16Proofs C16Store.
 Import ListNotations.
 
 Theorem C16_event_channel_is_request_owner :
@@ -75,10 +75,46 @@ Proof. exact completed_reported_once. Qed.
 Print Assumptions C16_completed_reported_once.
 
 Theorem C16_store_registered_for_lifetime_only :
-  forall s k orc c,
-    (In (OGs (GRegisterStore k) true) (snd (tstep s (XUseStore k) orc))) /\
-    (tlookup k (ts_chans s) = Some c -> tc_store c = true ->
-       snd (tstep s (XCleanup k) orc) = [OGs (GUnregisterStore k) true]) /\
-    (tlookup k (ts_chans s) = Some c -> tc_store c = false -> snd (tstep s (XCleanup k) orc) = []).
+  forall s k orc,
+    (has_store k s = false ->
+       snd (tstep s (XUseStore k) orc) = [OGs (GRegisterStore k) true; ORet true] /\
+       has_store k (fst (tstep s (XUseStore k) orc)) = true) /\
+    (has_store k s = true ->
+       snd (tstep s (XUseStore k) orc) = [OGs (GRegisterStore k) false; ORet false] /\
+       has_store k (fst (tstep s (XUseStore k) orc)) = true) /\
+    (has_store k s = true ->
+       snd (tstep s (XCleanup k) orc) = [OGs (GUnregisterStore k) true] /\
+       has_store k (fst (tstep s (XCleanup k) orc)) = false) /\
+    (has_store k s = false -> snd (tstep s (XCleanup k) orc) = []).
 Proof. exact store_registered_for_lifetime_only. Qed.
 Print Assumptions C16_store_registered_for_lifetime_only.
+
+(* ... over whole histories: for every channel, in every sequence of graphsync callbacks and
+   transport calls from the initial state, the successful registrations of its store exceed the
+   un-registrations by one exactly while the tracked channel has a store, and equal them otherwise:
+   a store is never registered twice, never left behind by cleanup, never dropped while the
+   channel lives, and only UseStore and the channel's cleanup touch graphsync's registry *)
+Theorem C16_store_balance :
+  forall self l k,
+    cnt (is_reg k) (touts (init_tstate self) l) =
+    cnt (is_unreg k) (touts (init_tstate self) l) + b2n (has_store k (tfinal (init_tstate self) l)).
+Proof. exact store_balance. Qed.
+Print Assumptions C16_store_balance.
+
+Theorem C16_only_usestore_and_cleanup_touch_the_registry :
+  forall s i orc, store_input i = false ->
+    nosop (snd (tstep s i orc)) = true /\ forall k, has_store k (fst (tstep s i orc)) = has_store k s.
+Proof. exact only_usestore_and_cleanup_touch_the_registry. Qed.
+Print Assumptions C16_only_usestore_and_cleanup_touch_the_registry.
+
+(* every request opened or answered for a channel that has a store is told to use it *)
+Theorem C16_requests_use_channel_store :
+  forall s orc k,
+    has_store k s = true ->
+    (forall to rc m, ha_ret (fst (pop_ans orc)) = HNil ->
+       In (OAct (AUseStore k)) (snd (tstep s (XOpenChannel to k rc m) orc))) /\
+    (forall p rid m, (g_isreq m && is_cancel m) = false -> ha_ret (fst (pop_ans orc)) <> HErr ->
+       k = (if g_isreq m then (p, ts_self s, g_tid m) else (ts_self s, p, g_tid m)) ->
+       In (OAct (AUseStore k)) (snd (tstep s (GIncomingRequest p rid (Some m)) orc))).
+Proof. exact requests_use_channel_store. Qed.
+Print Assumptions C16_requests_use_channel_store.
